@@ -19,6 +19,7 @@ type sched struct {
 	cur     *thread
 	failure any // panic value from a non-main thread
 	switches int
+	preempt  int // context switches away from a thread that could have continued
 }
 
 func (e *engine) resetSched() {
@@ -71,6 +72,9 @@ func (e *engine) yield() {
 		return
 	}
 	me := s.cur
+	if maxPreempt >= 0 && s.preempt >= maxPreempt && (me.blocked == nil || !me.blocked()) && !me.done {
+		return // pre-emption bound reached: the running thread keeps running until it blocks or ends
+	}
 	cands := s.runnable()
 	if len(cands) == 0 {
 		panic(abortPath{"deadlock"})
@@ -86,6 +90,7 @@ func (e *engine) yield() {
 		return
 	}
 	s.switches++
+	s.preempt++
 	s.cur = next
 	next.wake <- true
 	if ok := <-me.wake; !ok {
@@ -179,6 +184,9 @@ func (e *engine) chooseSafe(n int) (r int) {
 	}()
 	return e.choose("sched", n)
 }
+
+// maxPreempt bounds the number of pre-emptive context switches per path (-1 = unbounded).
+var maxPreempt = -1
 
 func init() {
 	_ = fmt.Sprint
